@@ -652,6 +652,52 @@ def spell(rnd, word):
     return rnd.choice([word.lower(), word.capitalize(), word.upper()])
 
 
+CALL_SHAPES = ('positional', 'keywords', 'keywords-shuffled', 'tail-keywords')
+
+
+def choose_shape(rnd, p=0.12):
+    """None (positional, the ordinary way) or another way of delivering the same arguments."""
+    return rnd.choice(CALL_SHAPES[1:]) if rnd.random() < p else None
+
+
+def shaped_call(fn, names, values, shape=None, omit=()):
+    """Call fn with the given arguments delivered in another, equivalent way: all by keyword (optionally in shuffled
+    order), only the trailing ones by keyword, and with arguments listed in `omit` (whose values equal the documented
+    defaults) left out.  `names` are the parameter names of the real signature, in order."""
+    names = list(names)
+    values = list(values)
+    assert len(names) == len(values)
+    # parameter names as the live function spells them (a renamed parameter is not this harness's business); the
+    # documented names when the live signature does not say (a *args/**kwargs wrapper)
+    try:
+        import inspect
+        ps = list(inspect.signature(fn).parameters.values())
+        if len(ps) >= len(names) and all(q.kind == q.POSITIONAL_OR_KEYWORD for q in ps[:len(names)]):
+            live = [q.name for q in ps[:len(names)]]
+            omit = tuple(live[names.index(o)] for o in omit if o in names)
+            names = live
+    except (TypeError, ValueError):
+        pass
+    if shape in (None, 'positional'):
+        # leaving out is only possible from the end
+        k = len(values)
+        while k and names[k - 1] in omit:
+            k -= 1
+        pos = values[:k]
+        kw = {n: v for n, v in zip(names[k:], values[k:]) if n not in omit}
+        return fn(*pos, **kw)
+    if shape in ('keywords', 'keywords-shuffled'):
+        items = [(n, v) for n, v in zip(names, values) if n not in omit]
+        if shape == 'keywords-shuffled':
+            items = items[1::2] + items[0::2][::-1]
+        return fn(**dict(items))
+    if shape == 'tail-keywords':
+        k = max(1, len(values) // 2)
+        kw = {n: v for n, v in zip(names[k:], values[k:]) if n not in omit}
+        return fn(*values[:k], **kw)
+    raise ValueError(shape)
+
+
 _UNJUDGED_HUNG = set()
 
 
